@@ -17,10 +17,11 @@ Inductive rderr := REof | RUnexp.
 Inductive frame :=
 | FMsg (t : byte) (body : bytes)
 | FOver (t : byte) (size : Z) (trunc : option rderr)
-| FBad (t : byte) (size : Z).
+| FBad (t : byte) (size : Z)
+| FTail.   (* the stream ends inside a message: reading it fails with io.ErrUnexpectedEOF and exhausts the input *)
 
 Definition frame_type (f : frame) : byte :=
-  match f with FMsg t _ | FOver t _ _ | FBad t _ => t end.
+  match f with FMsg t _ | FOver t _ _ | FBad t _ => t | FTail => x00 end.
 
 Fixpoint frames_fuel (fuel : nat) (L : Z) (s : bytes) : list frame * rderr :=
   match fuel with
@@ -44,9 +45,9 @@ Fixpoint frames_fuel (fuel : nat) (L : Z) (s : bytes) : list frame * rderr :=
             match takeZ size r with
             | Some (body, rest) =>
                 let (fs, tl) := frames_fuel fuel' L rest in (FMsg t body :: fs, tl)
-            | None => ([], match r with [] => REof | _ => RUnexp end)
+            | None => (match r with [] => [] | _ => [FTail] end, REof)
             end
-      | _ => ([], RUnexp)
+      | _ => ([FTail], REof)
       end
   end.
 
